@@ -182,7 +182,7 @@ prop("C13",
      "DESIGN.md 4/C13")
 
 prop("C14",
-     [dict(name="C14_lr", src="C03.cpp", cxxflags=["-DMODE_C14"], deadline=dict(quick=60, thorough=400)),
+     [dict(name="C14_lr", src="C03.cpp", cxxflags=["-DMODE_C14", "-fno-access-control"], deadline=dict(quick=60, thorough=400)),
       dict(name="C14_cow", src="C04.cpp", cxxflags=["-DMODE_C14"], deadline=dict(quick=60, thorough=400)),
       dict(name="C14_rcu", src="rcu.cpp", cxxflags=["-DMODE_C14"], deadline=dict(quick=100, thorough=500))],
      SCHED_RULE + " Programs: the C03 (lr_guarded), C04 (cow_guarded) and C05 (rcu) program sets; every read "
